@@ -370,7 +370,84 @@ def rule_u8(ctx, facts):
         ctx.fail_closed("U8: expected at least the two callback sites of compute_if_present, found %d" % n)
 
 
+def rule_u9(ctx, facts):
+    """a panic of a caller-supplied closure that is CAUGHT (catch_unwind) and re-raised later changes nothing either: on every path from
+    the `Err` edge of the caught result to the re-raise / the return, nothing is written, retired, freed, unlinked or counted.  ESP keeps
+    the flags the function branches on (`removed_node`, the Option that carries the new value), so a correct "remember the payload, leave
+    the arm, re-raise after the unlock" passes and an arm that maps the payload to `None` -- which the code below reads as "remove" --
+    is reported."""
+    from .esp import Esp, Spec
+    from .anchors import anchors
+    an = anchors(facts)
+    cg = callgraph(facts)
+    n = 0
+    for b in facts.bodies:
+        for c in b.calls:
+            s = callee_str(c)
+            if not s.endswith(("panic::catch_unwind", "panicking::try", "panicking::catch_unwind")) or b.is_cleanup(c.b):
+                continue
+            # does the protected closure run caller-supplied code?  (closure argument, possibly wrapped in AssertUnwindSafe)
+            runs_user = None
+            for a in c.args:
+                l = op_root(a)
+                if l is None:
+                    continue
+                for x in range(len(b.locals)):
+                    head = b.ty(x).get("head", "")
+                    cid = head[len("closure:"):] if head.startswith("closure:") else None
+                    if cid and cid in facts.by_id and (x == l or l in flow(b).flows_to(x)):
+                        seen = set(cg.reachable(cid)) | {cid}
+                        runs_user = any(user_closure_call(y) for bid in seen if bid in facts.by_id for y in facts.by_id[bid].calls)
+            if runs_user is False:
+                continue
+            n += 1
+            dl = c.dst_local()
+            res = {dl} | set(flow(b).flows_to(dl)) if dl is not None else set()
+            muts = dict(mutations(b, an))
+            for x in b.calls:
+                if callee_str(x).endswith("HashMap::add_count") and not b.is_cleanup(x.b):
+                    muts[x.point] = "add_count"
+            muts = {p: d for p, d in muts.items() if d != "user closure"}
+            err_edges = set()
+            from .analysis import discr_switch
+            for bi in range(len(b.blocks)):
+                ds = discr_switch(b, bi)
+                if ds and ds["kind"] == "is_ok" and ds["arg"] in res:
+                    err_edges.add((bi, ds["false"]))
+
+            class Caught(Spec):
+                def __init__(self):
+                    self.bad = {}
+
+                def initial(self):
+                    return "normal"
+
+                def on_edge(self, bb, tb, label, ts, env):
+                    if (bb, tb) in err_edges:
+                        return ["caught"]
+                    return [ts]
+
+                def on_call(self, pt, call, ts, env):
+                    if ts == "caught" and pt in muts:
+                        self.bad.setdefault(pt, muts[pt])
+                    return [ts]
+            if err_edges:
+                spec = Caught()
+                Esp(b, spec).run()
+                bad = sorted(spec.bad.items())
+            else:
+                r = reach(b, after(b, c.point, label="ret"))
+                bad = sorted((p, d) for p, d in muts.items() if p in r)
+            ctx.inst("U9", b, "caught panic of the callback at %s" % c.span.split(":", 1)[1], c.span, not bad,
+                     "after the panic was caught nothing is written, retired, unlinked or counted before it is re-raised" if not bad else
+                     "the panic of the closure is caught at %s and, on a path from the Err edge, %s at %s still happens before the panic is "
+                     "passed on: the entry being processed does not stay as it was" % (c.span, bad[0][1], b.span_at(bad[0][0])))
+    return n
+
+
 def run(ctx, facts):
+    ctx.rule("U9", "a caught panic of a caller-supplied closure (catch_unwind) is followed by no write, retire, unlink or count adjustment before it is re-raised", floor=0)
+    rule_u9(ctx, facts)
     ctx.rule("U8", "unwinding out of a caller-supplied closure retires, frees and writes nothing (no effectful drop glue on the cleanup path)", floor=2)
     rule_u8(ctx, facts)
     ctx.rule("U7", "state changed around a callback is restored on the unwind path too (no thread-local bracket without a drop guard)", floor=2)
